@@ -149,7 +149,8 @@ def judge_sample_callstack(w, shape):
     evs = [E.ev('PERF_Event', 1, (0x8, 7, 0, 0)), E.ev('PERF_STK_UHdr', 0, (w, nframes, 0, 0))]
     if shape == 'frames':
         evs.append(E.ev('PERF_STK_UData', 0, (0x10, 0x20, 0, 0)))
-    evs.append(E.ev('PERF_Event', 2, (0, 0, 0, 0)))
+    # the END record of a sample carries words of its own (the idle-thread word among them): not the callstack state word
+    evs.append(E.ev('PERF_Event', 2, (0, 0, 0, 0) if w % 2 else (0x8, 1, 7, 9)))
     try:
         out = [t for t in TracesParser(E.codes(), {}, {}).feed_generator(E.restamp(evs)) if type(t).__name__ == 'PerfEvent' and t.ktraces[0].func_qualifier == 1]
         if len(out) != 1:
@@ -176,7 +177,7 @@ def judge_sample_callstack(w, shape):
 
 
 def judge_sample_thread_state(w, about):
-    evs = [E.ev('PERF_Event', 1, (0x1, 7, 0, 0)), E.ev('PERF_THD_Data', 0, (55, about, 0x66, w)), E.ev('PERF_Event', 2, (0, 0, 0, 0))]
+    evs = [E.ev('PERF_Event', 1, (0x1, 7, 0, 0)), E.ev('PERF_THD_Data', 0, (55, about, 0x66, w)), E.ev('PERF_Event', 2, (0, 0, 0, 0) if w % 2 else (0x1, 1, 7, 9))]
     try:
         out = [t for t in TracesParser(E.codes(), {}, {}).feed_generator(E.restamp(evs)) if type(t).__name__ == 'PerfEvent' and t.ktraces[0].func_qualifier == 1]
         if len(out) != 1:
@@ -385,7 +386,8 @@ class C11(Check):
                   for first_kind in (('RealFaultAddressInternal', 'RealFaultAddressExternal', 'RealFaultAddressSharedCache') if p1 % 8 == 7 or p1 < 8 else ('RealFaultAddressInternal',)):
                     # every other value: unrelated records of the thread logged between the nested record and the fault's END
                     between = [E.ev('MACH_WAIT', 0, (0x10, 0, 0, 0)), E.ev('MACH_vm_page_release', 0, (1, 2, 3, 4))] if p1 % 2 else []
-                    evs = [E.ev('MACH_vmfault', 1, (1, 2, 0, 0)), E.ev(first_kind, 0, (9, (7 << 16) | (p1 << 8) | 2, 5, 6))] + between + \
+                    # every third value: a fault on the kernel map (START word 2 set)
+                    evs = [E.ev('MACH_vmfault', 1, (1, 2, 1 if p1 % 3 == 0 else 0, 0)), E.ev(first_kind, 0, (9, (7 << 16) | (p1 << 8) | 2, 5, 6))] + between + \
                           [E.ev('MACH_vmfault', 2, (0, 0, 0, 2)), E.ev('MACH_vmfault', 1, (1, 3, 0, 0))] + \
                           [E.ev(k, 0, (9, (7 << 16) | (0xff << 8) | 2, 5, 6)) for k in second] + [E.ev('MACH_vmfault', 2, (0, 0, 0, 2))]
                     try:
